@@ -1817,11 +1817,17 @@ class UTPM(Ring, RawAlgorithmsMixIn):
 
         x = numpy.ravel(x)
 
+        # an integer seed point (e.g. a list of ints) is propagated in floating point,
+        # as in init_jacobian
+        dtype = x.dtype
+        if dtype==int:
+            dtype=float
+
         # generate directions
         N = x.size
         M = (N*(N+1))//2
         L = (N*(N-1))//2
-        S = numpy.zeros((N,M), dtype=x.dtype)
+        S = numpy.zeros((N,M), dtype=dtype)
 
         s = 0
         i = 0
@@ -1832,7 +1838,7 @@ class UTPM(Ring, RawAlgorithmsMixIn):
             i+=1
         S = S[::-1].T
 
-        data = numpy.zeros(numpy.hstack([3,S.shape]), dtype=x.dtype)
+        data = numpy.zeros(numpy.hstack([3,S.shape]), dtype=dtype)
         data[0] = x
         data[1] = S
         return cls(data)
